@@ -155,6 +155,42 @@ def h_inbound(I, state, kind, digits):
     return [expect, wire_summary(s["frames"]), c.log.exceptions]
 
 
+def h_after_resend(I, n, digits):
+    """n sends (application / heartbeat, symbolic), an inbound ResendRequest for a symbolic range of
+    them, then a new send: it must carry the number following the last new message, and the stored
+    counter must follow."""
+    install_loop()
+    first = I.int("next_out", 1, 10**digits - 1)
+    c = mkconn(CS.ACTIVE, ROLES[I.choice("role", 2)], 5, first)
+    w = c._socket_writer
+    for k in range(n):
+        if I.bool(f"app{k}"):
+            run(c.send_msg(build_out(I, "app", "D", k)))
+        else:
+            run(c.send_msg(FIXMessage(FMsg.HEARTBEAT)))
+    nout = first + n
+    I.check(c._session.next_num_out == nout, "counter after the initial sends")
+    begin = I.int("begin", 1, 10**digits + 2)
+    I.assume(begin < nout)  # ranges beyond what was sent are C06's subject
+    nfr = len(w.frames)
+    from vfx.env import inbound, raw_for
+    run(c._process_message(inbound("2", 5, {7: begin, 16: 0}), raw_for("2", 5)))
+    I.check(len(c.log.exceptions) == 0, f"servicing the ResendRequest raised: {c.log.exceptions[:1]}")
+    I.check(c._session.next_num_out == nout, "next outbound number not restored after servicing a ResendRequest")
+    stored, rows = journal_view(c)
+    I.check(stored == nout, "stored next outbound number differs from the live one after servicing a ResendRequest")
+    I.check(new_frames(w.frames[nfr:]) == [], "servicing a ResendRequest sent a new (non-retransmitted) message")
+    nfr = len(w.frames)
+    run(c.send_msg(build_out(I, "app", "D", "z")))
+    d = frame_fields(w.frames[nfr])
+    I.check(int(d["34"]) == nout, "new message after a resend does not carry last sent + 1")
+    stored, rows = journal_view(c)
+    I.check(stored == nout + 1, "stored counter != last sent + 1 after the new message")
+    I.check(c._journaler.recover_messages(c._session, OUT, nout, nout) == [w.frames[nfr]], "new message not journaled under its number")
+    I.goal("resent")
+    return [nout, wire_summary(w.frames)]
+
+
 def cells(tier):
     quick = tier == "quick"
     digits = 3 if quick else 6
@@ -171,6 +207,10 @@ def cells(tier):
                             goals=(["refused"] if g == "disconnected" else []) + (["sent"] if g != "disconnected" else [])))
     out.append(Cell("multi", lambda I: h_multi(I, 2 if quick else 3, 2 if quick else 4),
                     dict(sends=2 if quick else 3, kinds=["app", "heartbeat", "send_test_req"], state="ACTIVE"), goals=["sent", "refused"]))
+    for n in ((2,) if quick else (1, 2, 3)):
+        out.append(Cell(f"after-resend/{n}", (lambda I, n=n: h_after_resend(I, n, 1 if quick else 2)),
+                        dict(sends=n, kinds="application / heartbeat (symbolic per send)", begin_seq_no="symbolic, below next_out",
+                             counters="symbolic, 1 digit" if quick else "symbolic, 2 digits"), goals=["resent"], budget_s=1800))
     for sname, st in c04.STATES.items():
         for kind in (("testrequest", "app", "resendrequest") if quick else KINDS):
             out.append(Cell(f"inbound/{sname}/{kind}", (lambda I, st=st, kind=kind: h_inbound(I, st, kind, 1 if quick else 2)),
